@@ -13,6 +13,8 @@ import (
 type Visit func(s *Scenario, p *PathData, q Query, res QResult, loc map[string]interface{})
 
 type Omni struct {
+	NoValueFocus bool
+	FocusThin    int // > 1: only every FocusThin-th scenario of the shared focus families
 	Bases     int
 	Opts      ScenarioOpts
 	PosSample int
@@ -73,6 +75,16 @@ func omnibus(run *Run, o Omni, visit Visit) {
 				lf.Offsets = append(lf.Offsets, off)
 			}
 			scs = append(scs, lf)
+		}
+		// typing states of a value under every constraint kind (a share of the family per base), every offset of the value
+		if !o.NoValueFocus {
+			thin := o.FocusThin
+			if thin < 1 {
+				thin = 1
+			}
+			scs = append(scs, valueFocusShare(bi, o.Bases*thin)...)
+			// addressable collections over elements of every kind, referenced from other attributes
+			scs = append(scs, valueTargetProbeShare(bi, o.Bases*thin)...)
 		}
 		// JSON renderings of the first (complete) configuration, plain and with hostile strings
 		if len(scs) > 0 {
